@@ -89,7 +89,12 @@ func cmdFilt(args []string) int {
 			}
 			flt := filter.Build(es)
 			ev := FiltEvent{Ev: "Build", N: len(es), Shape: shape}
-			for _, e := range es {
+			for i, e := range es {
+				// lookups of keys that were never added, in between: whatever they answer, they must
+				// not disturb the answers for members
+				if i%2 == 0 {
+					flt.Contains(fmt.Sprintf("absent-%d-%d", si, i))
+				}
 				ev.Members++
 				if !flt.Contains(types.ParseKey(e.Key)) {
 					ev.Denied++
@@ -107,7 +112,10 @@ func cmdFilt(args []string) int {
 				rv := FiltEvent{Ev: "Rebuilt", N: len(es), Shape: shape}
 				if err := v.Flush(sorted); err == nil {
 					v.Recover()
-					for _, k := range keys {
+					for i, k := range keys {
+						if i%2 == 0 {
+							v.Lookup(fmt.Sprintf("absent-%d-%d", si, i), uint64(versions+1))
+						}
 						rv.Members++
 						if _, ok := v.Lookup(k, uint64(versions+1)); !ok {
 							rv.Denied++
